@@ -1,6 +1,7 @@
 SPECIFICATION Spec
 CONSTANTS
   Depth = 0
+  Seeded = FALSE
   MaxOps = 4
 INVARIANTS InvOneMinerPerAccount InvConservation InvStakeAccounting InvNonNegative InvStakeFloor
 CHECK_DEADLOCK FALSE
